@@ -48,7 +48,7 @@ for d in sorted(os.listdir(root)):
             "pinned_suite_with_patch": confirm.get(d, {}),
             "how": "tools/confirm_seeded.sh <worktree> <k>: patch applies; `cargo test --workspace --no-fail-fast --offline` passes with it; demo.sh fails with it and passes without it",
         },
-        "checks_run": "tools/sensitivity.sh seeded/%s/patch.diff (git -C /repo apply; rebuild simulator; every property's check at RUNS=10000 seeds, C17 at 1000; replay of the first minimised file in a fresh process; git -C /repo checkout -- .)" % d,
+        "checks_run": "tools/sensitivity.sh seeded/%s/patch.diff (git -C /repo apply; rebuild simulator; every property's check at RUNS=5000 seeds, C17 at 500; replay of the first minimised file in a fresh process; git -C /repo checkout -- .)" % d,
         "caught_by": sorted(p for p, (r, _) in res.items() if r == "CAUGHT"),
         "missed_by": sorted(p for p, (r, _) in res.items() if r == "missed"),
         "detail": {p: t for p, (r, t) in sorted(res.items()) if r == "CAUGHT"},
